@@ -23,6 +23,8 @@
 #include "refoscore.h"
 #include "vx.h"
 
+#include <errno.h>
+#include <fcntl.h>
 #include <stdarg.h>
 #include <unistd.h>
 
@@ -98,10 +100,13 @@ __wrap_coap_free_type(coap_memory_tag_t type, void *p) {
 size_t __real_oscore_cbor_put_bytes(uint8_t **buffer, size_t *buf_size, const uint8_t *bytes, size_t bytes_len);
 size_t __wrap_oscore_cbor_put_bytes(uint8_t **buffer, size_t *buf_size, const uint8_t *bytes, size_t bytes_len);
 static long g_null_memcpy;
+/* set by probe_null_memcpy(): does the real function, as built, stop under UBSan when given (NULL, 0)?  If not
+ * (fixed source, or a build without UBSan) the wrappers below are pure pass-throughs and nothing is reported. */
+static int g_ub_put_bytes, g_ub_nonce, g_ub_bin_const;
 size_t
 __wrap_oscore_cbor_put_bytes(uint8_t **buffer, size_t *buf_size, const uint8_t *bytes, size_t bytes_len) {
   static const uint8_t nothing[1] = {0};
-  if (!bytes && !bytes_len) {
+  if (g_ub_put_bytes && !bytes && !bytes_len) {
     g_null_memcpy++;
     bytes = nothing;
   }
@@ -116,7 +121,7 @@ void
 __wrap_oscore_generate_nonce(cose_encrypt0_t *ptr, oscore_ctx_t *ctx, uint8_t *buffer, uint8_t size) {
   static const uint8_t nothing[1] = {0};
   const uint8_t *kid = ptr->key_id.s, *piv = ptr->partial_iv.s;
-  if ((!kid && !ptr->key_id.length) || (!piv && !ptr->partial_iv.length)) {
+  if (g_ub_nonce && ((!kid && !ptr->key_id.length) || (!piv && !ptr->partial_iv.length))) {
     g_null_memcpy_nonce++;
     if (!kid)
       ptr->key_id.s = nothing;
@@ -135,11 +140,58 @@ static long g_null_memcpy_bin;
 coap_bin_const_t *
 __wrap_coap_new_bin_const(const uint8_t *data, size_t size) {
   static const uint8_t nothing[1] = {0};
-  if (!data && !size) {
+  if (g_ub_bin_const && !data && !size) {
     g_null_memcpy_bin++;
     data = nothing;
   }
   return __real_coap_new_bin_const(data, size);
+}
+
+#include <sys/wait.h>
+static void
+probe_put_bytes(void) {
+  uint8_t b[8], *p = b;
+  size_t n = sizeof b;
+  __real_oscore_cbor_put_bytes(&p, &n, NULL, 0);
+}
+static void
+probe_nonce(void) {
+  cose_encrypt0_t cose[1];
+  oscore_ctx_t o;
+  uint8_t iv[13] = {0}, out[13];
+  coap_bin_const_t civ = {13, iv};
+  memset(&o, 0, sizeof o);
+  o.common_iv = &civ;
+  cose_encrypt0_init(cose);
+  __real_oscore_generate_nonce(cose, &o, out, 13);
+}
+static void
+probe_bin_const(void) {
+  coap_delete_bin_const(__real_coap_new_bin_const(NULL, 0));
+}
+static int
+dies(void (*fn)(void)) {
+  fflush(NULL);
+  pid_t pid = fork();
+  if (pid == 0) {
+    int fd = open("/dev/null", O_WRONLY);
+    if (fd >= 0) {
+      dup2(fd, 1);
+      dup2(fd, 2);
+    }
+    fn();
+    _exit(0);
+  }
+  int st = 0;
+  while (waitpid(pid, &st, 0) < 0 && errno == EINTR)
+    ;
+  return !(WIFEXITED(st) && WEXITSTATUS(st) == 0);
+}
+static void
+probe_null_memcpy(void) {
+  g_ub_put_bytes = dies(probe_put_bytes);
+  g_ub_nonce = dies(probe_nonce);
+  g_ub_bin_const = dies(probe_bin_const);
 }
 
 /* ------------------------------------------------------------------------------------------ */
@@ -1133,7 +1185,17 @@ tamper_attempt(const char *cs, const struct flight *f, struct endpoint *e, const
   int must_reject = ref != REFOSCORE_OK;
   if (!must_reject && !refoscore_msg_equal(&info.inner, &f->inner))
     must_reject = 1; /* cannot happen with a sound AEAD; kept as the rule states it */
+  g_last_sent_len = 0;
   int r = unprotect_with_libcoap(e->s, b, n, &lmsg, tok, &tkl);
+  if (r == 0 && !f->is_response) {
+    /* informational: the unprotected error reply RFC 8613 8.2 lets the server send (4.02 / 4.01 / 4.00) */
+    if (g_last_sent_len >= 4) {
+      uint8_t c = g_last_sent[1];
+      vxp_count(c == CODE(4, 0) ? 21 : c == CODE(4, 1) ? 22 : c == CODE(4, 2) ? 23 : 24, 1);
+    } else {
+      vxp_count(25, 1);
+    }
+  }
   if (r == -1) {
     vxp_count(8, 1);
     return;
@@ -1418,16 +1480,12 @@ mix_hash(const struct wire *w) {
 /* Appendix C vectors driven through libcoap.  0..5: key derivations C.1.1 - C.3.2; 6..10: C.4 - C.8 */
 static void
 vector_case(int vi) {
-  static const struct ctxspec VSPEC[3] = {{0, 1, 0, 8, 16}, {1, 1, 0, 0, 16}, {0, 1, 8, 8, 16}};
   const refoscore_vector_t *vecs;
-  int nvec = refoscore_vectors(&vecs);
-  (void)nvec;
+  (void)refoscore_vectors(&vecs);
   if (vi < 6) {
-    /* the RFC's contexts use ids {}, 00, 01: build them directly from the vector parameters */
-    static const int MAP[6] = {0, 3, 1, -1, 2, -2}; /* message vector whose params are this derivation (client side) */
+    /* C.1 / C.2 / C.3 use the client contexts of the request vectors C.4 / C.5 / C.6; odd = the server's mirror */
     refoscore_params_t p, q;
-    const refoscore_vector_t *mv = &vecs[vi / 2 == 0 ? 0 : vi / 2 == 1 ? 1 : 2];
-    (void)MAP;
+    const refoscore_vector_t *mv = &vecs[vi / 2];
     p = mv->params;
     if (vi & 1) {
       params_mirror(&p, &q);
@@ -1459,7 +1517,6 @@ vector_case(int vi) {
         vx_fail("protect-mismatch:nonce", "%s: sender nonce for PIV 0 is %s, reference %s", cs, hexs(nb, 13, 13), hexs(rn, 13, 13));
     }
     ep_free(&e);
-    (void)VSPEC;
     return;
   }
   /* message vectors: the RFC's ids are {} / 00 / 01, not the alphabet's; run them with a private pair */
@@ -1613,12 +1670,12 @@ one_case(uint64_t idx, void *arg) {
 static int ALL_CV[NCODEVAR], ALL_PIV[NPIV];
 static const int CORE_PAY[] = {0, 17, 1024};
 static const int TAMPER_PAY_Q[] = {0, 1, 17};
-static const int TAMPER_PAY_T[] = {0, 1, 17, 64};
+static const int TAMPER_PAY_T[] = {0, 1, 17};
 static const int TAMPER_CV[] = {0, 1, 4, 7, 8, 10, 11}; /* GET POST FETCH | 2.05 4.04 (no piv) | 2.04 2.05 (own piv) */
 static const int TAMPER_PIV_Q[] = {0, 5, 8};            /* 0, 65536, 2^40-3 */
 static struct ctxspec TAMPER_CTX_Q[40];
 static int NTAMPER_CTX_Q;
-static const int TAMPER_PIV_T[] = {0, 2, 5, 6, 7, 8}; /* 0, 255, 65536, 2^24, 2^32, 2^40-3 */
+static const int TAMPER_PIV_T[] = {0, 5, 7, 8}; /* 0, 65536, 2^32, 2^40-3 */
 static const uint16_t TAMPER_SUBSETS[] = {
     0,
     1u << 0 | 1u << 1,            /* Uri-Host + Uri-Path */
@@ -1661,6 +1718,7 @@ main(int argc, char **argv) {
   }
   coap_startup();
   coap_set_log_level(getenv("C14_LOG") ? COAP_LOG_OSCORE : COAP_LOG_EMERG);
+  probe_null_memcpy();
 
   int thorough = vx_is_thorough();
   int k = thorough ? 3 : 2;
@@ -1682,8 +1740,8 @@ main(int argc, char **argv) {
                            TAMPER_SUBSETS, (int)(sizeof TAMPER_SUBSETS / sizeof TAMPER_SUBSETS[0]), TAMPER_PAY_Q, 3,
                            TAMPER_CV, (int)(sizeof TAMPER_CV / sizeof TAMPER_CV[0]), TAMPER_PIV_Q, 3, 1, 1};
   struct space tamper_t = {"tamper", 0, CTXS, NCTX, TAMPER_SUBSETS,
-                           (int)(sizeof TAMPER_SUBSETS / sizeof TAMPER_SUBSETS[0]), TAMPER_PAY_T, 4,
-                           TAMPER_CV, (int)(sizeof TAMPER_CV / sizeof TAMPER_CV[0]), TAMPER_PIV_T, 6, 1, 1};
+                           (int)(sizeof TAMPER_SUBSETS / sizeof TAMPER_SUBSETS[0]), TAMPER_PAY_T, 3,
+                           TAMPER_CV, (int)(sizeof TAMPER_CV / sizeof TAMPER_CV[0]), TAMPER_PIV_T, 4, 1, 1};
   struct space *tamper = thorough ? &tamper_t : &tamper_q;
 
   if (vxp_replay_if_match(msg_major.name, one_case, &msg_major) || vxp_replay_if_match(ctx_major.name, one_case, &ctx_major) ||
@@ -1721,7 +1779,15 @@ main(int argc, char **argv) {
   vx_ev_int("tamper_no_oscore_option_left", (long long)vxp_counter(7));
   vx_ev_int("tamper_accepted_as_rfc_allows", (long long)vxp_counter(6));
   vx_ev_int("tamper_rejected_though_reference_accepts", (long long)vxp_counter(11));
+  vx_ev_int("rejected_request_reply_4.00", (long long)vxp_counter(21));
+  vx_ev_int("rejected_request_reply_4.01", (long long)vxp_counter(22));
+  vx_ev_int("rejected_request_reply_4.02", (long long)vxp_counter(23));
+  vx_ev_int("rejected_request_reply_other", (long long)vxp_counter(24));
+  vx_ev_int("rejected_request_no_reply", (long long)vxp_counter(25));
   vx_ev_int("datagrams_libcoap_tried_to_send", (long long)vxp_counter(14));
+  vx_ev_int("ubsan_probe_oscore_cbor_put_bytes_null_len0_dies", g_ub_put_bytes);
+  vx_ev_int("ubsan_probe_oscore_generate_nonce_null_len0_dies", g_ub_nonce);
+  vx_ev_int("ubsan_probe_coap_new_bin_const_null_len0_dies", g_ub_bin_const);
   vx_ev_int("memcpy_null_len0_calls_forwarded", (long long)vxp_counter(18));
   vx_ev_int("notification_observe_from_response_piv", (long long)vxp_counter(15));
   vx_ev_int("notification_observe_from_request_piv", (long long)vxp_counter(16));
